@@ -90,6 +90,11 @@ def run(chk):
         inputs.append(b"function main() -> void { int a = 0; a = " + b"a = " * d + b"1; }")
         inputs.append(b"function main() -> void { int[] v = {0}; int a = 0; v[0] = " + b"a = " * d + b"1; }")
         inputs.append(b"function f(int p) -> int { return p; }\nfunction main() -> void { int a = 0; echo(f(" + b"a = " * d + b"1)); }")
+        # types: a run of '[]' / '[3]' builds a chain of array types that the later passes walk recursively
+        inputs.append(b"function main() -> void { int" + b"[]" * d + b" x; }")
+        inputs.append(b"function f(int" + b"[2]" * d + b" p) -> void { }\nfunction main() -> void { }")
+        inputs.append(b"class A { public int" + b"[]" * d + b" f; public constructor() -> A = default; }\nfunction main() -> void { }")
+        inputs.append(b"function main() -> void { int x = (int" + b"[]" * d + b") 1; }")
     # imports whose path components are absurd for a file system (too long, dots only, empty): the loader's probe must end in a diagnostic
     for comp in ("a" * 300, "b" * 5000, "x" * 256, "y" * 255):
         inputs.append(("import %s;\nfunction main() -> void { }" % comp).encode())
